@@ -17,10 +17,11 @@ import (
 	"mcverif/engine"
 	"mcverif/gen"
 	"mcverif/rw"
+	"mcverif/vmap"
 )
 
 var Spec = engine.Spec{
-	ID: "C07", Run: Run, QuickBud: 6 * time.Minute, ThorBud: 30 * time.Minute,
+	ID: "C07", Run: Run, MapOrders: true, MapOrdersQuick: []int{vmap.Alternating}, QuickBud: 6 * time.Minute, ThorBud: 30 * time.Minute,
 	Technique: "explicit-state search over Document construction histories (deviation-bounded from the all-nil message and from a well-formed base; de-duplicated by snapshot) x 8 serializers, real WriteStreamWithOptions under recover; exhaustive short serialization histories compared with fresh-process reference outputs",
 	Rule:      "state = Document reached by <=d construction steps from a base (steps: set/leave nil metadata and node list, ids empty/duplicate, out-of-range enums, dangling edges and roots, cycles, document types with every subset of optional fields...); key = field-by-field snapshot; case = (state, format, as-built | after proto round trip)",
 	Assume:    []string{"nil elements inside repeated fields are not values of the message type (proto.Marshal rejects them) and are excluded", "outputs compared after removing creation timestamps and sorting every JSON array"},
@@ -257,8 +258,10 @@ func Run(c *engine.Ctx) {
 							if n1 != n2 {
 								return engine.Violate("nondeterministic", fam(f), "two serializations of the same document differ:\n%s\n%s", n1, n2)
 							}
+							t.Observe(n1)
 							t.Outcome(fam(f) + ":output")
 						} else {
+							t.Observe("error")
 							t.Outcome(fam(f) + ":error")
 						}
 						t.State(b.Name + "|" + strings.Join(pathNames(all, s.path), ";") + fmt.Sprint(variant))
